@@ -107,7 +107,7 @@ def oracle_contract(case):
 
 @st.composite
 def cases(draw, size, depth):
-    prog = draw(gp.programs(n_inputs=(1, 3), size=size, depth=depth, profile=draw(st.sampled_from(["core", "core", "tickets"]))))
+    prog = draw(gp.programs(n_inputs=(1, 3), size=size, depth=depth, profile=draw(st.sampled_from(["core", "collections", "collections", "tickets"]))))
     return {"inputs": prog["inputs"], "code": prog["code"], "env": xc.env_to_json(draw(gp.env_strategy()))}
 
 
@@ -161,7 +161,7 @@ def run(h):
     passed, skipped = selfcheck.ref_interp_vectors()
     h.coverage_extra["reference_validated"] = "reference interpreter reproduces %d Octez opcode vectors" % passed
     size, depth = ((1, 8), 2) if h.quick else ((1, 16), 3)
-    h.run_given(lambda: cases(size, depth), _prop, h.n(30, 4000), shards=16, classify=classify, name="stack")
+    h.run_given(lambda: cases(size, depth), _prop, h.n(50, 4000), shards=16, classify=classify, name="stack")
     h.run_given(lambda: contract_cases(size, depth), _prop, h.n(8, 1000), shards=16, classify=classify, name="contract")
     if h.stats.extra.get("generator_illtyped", 0) > 0.05 * max(1, h.stats.evaluations):
         raise Inconclusive("too many ill-typed programs generated")
